@@ -190,6 +190,17 @@ var EntryPoints = []EntryPoint{
 		e, t := errRes(err)
 		return Result{fmt.Sprintf("%+v", c), e, t, false}
 	}},
+	{"control.Unmarshal(user document)", func(in string) Result {
+		// a caller's own typed document: members of every shape a struct may have next to the decoded ones - pointers to its
+		// own type (skipped), a pointer to a custom type, a nested struct behind a pointer, lists of documents
+		var n userDoc
+		err := control.Unmarshal(&n, rd(in))
+		e, t := errRes(err)
+		var l []userDoc
+		err2 := control.Unmarshal(&l, rd(in))
+		e2, t2 := errRes(err2)
+		return Result{fmt.Sprintf("%+v|%v|%d %v %s", n.flat(), n.Parent == nil && n.Next == nil, len(l), e2, t2), e, t, false}
+	}},
 	{"changelog.Parse", func(in string) Result {
 		l, err := changelog.Parse(rd(in))
 		e, t := errRes(err)
@@ -204,6 +215,25 @@ var EntryPoints = []EntryPoint{
 		}
 		return Result{s, e, t, c != nil}
 	}},
+}
+
+type userDoc struct {
+	control.Paragraph
+	Package string
+	Version *version.Version
+	Depends dependency.Dependency
+	Parent  *userDoc   `control:"-"`
+	Next    *userDoc   `control:"-"`
+	Kids    []*userDoc `control:"-"`
+	Note    string     `control:"X-Note"`
+}
+
+func (n userDoc) flat() string {
+	v := "<nil>"
+	if n.Version != nil {
+		v = n.Version.String()
+	}
+	return fmt.Sprintf("%s|%s|%s|%s|%v", n.Package, v, gen.CanonDep(&n.Depends), n.Note, n.Order)
 }
 
 func entry(name string) *EntryPoint {
@@ -303,7 +333,7 @@ func alphabets(quick bool) []alpha {
 		{[]string{"dependency.ParseArch", "dependency.ParseArchitectures"}, []string{"a", "-", " ", "any", "all", "\n", "é", "!"}, 6, 8, false},
 		{[]string{"dependency.Parse"}, []string{"a", "b1", " ", ",", "|", "(", ")", "[", "]", "<", ">", "!", ":", "=", "$", "{", "}", "\n", "-", "é", ">=", "\t"}, 4, 5, false},
 		{[]string{"control.ParagraphReader", "control.ParagraphReader.Next"}, []string{"A", ":", " ", "\n", "#", ".", "\r", "\t", "é"}, 6, 8, false},
-		{[]string{"control.ParseDsc", "control.ParseChanges", "control.ParseControl", "control.ParseBinaryIndex", "control.ParseSourceIndex", "deb.Control"}, typed, 4, 4, true},
+		{[]string{"control.ParseDsc", "control.ParseChanges", "control.ParseControl", "control.ParseBinaryIndex", "control.ParseSourceIndex", "deb.Control", "control.Unmarshal(user document)"}, typed, 4, 4, true},
 		{[]string{"changelog.Parse", "changelog.ParseOne"}, []string{"hello", " (", "1.0-1", ")", " unstable", ";", " urgency=low", "\n", "  * x", " -- ", "A <a@b>", "  ", "Mon, 02 Jan 2006 15:04:05 +0100", " ", "=", ",",
 			"hello (1.0-1) unstable; urgency=low\n", " -- A <a@b>  Mon, 02 Jan 2006 15:04:05 +0100\n", "  * change\n"}, 4, 5, false},
 	}
@@ -325,6 +355,7 @@ var seeds = map[string][]string{
 	"control.ParseBinaryIndex":     {"-----BEGIN PGP SIGNED MESSAGE-----\nHash: SHA256\n\nSource: x\nVersion: 1\n", "-----BEGIN PGP SIGNED MESSAGE-----\nHash: SHA256\n\nSource: x\n-----BEGIN PGP SIGNATURE-----\n\niQ==\n-----END PGP SIGNATURE-----\n", "-----BEGIN PGP MESSAGE-----\n\nxxxx\n-----END PGP MESSAGE-----\n", "Package: hello\nVersion: 2.10-1\nInstalled-Size: 280\nArchitecture: amd64\nSize: 10\n\nPackage: b\nVersion: 1\n", "Package: a\nVersion: 1\n\nPackage: b\nVersion: !\n", "Package: a\nInstalled-Size: x\n", ""},
 	"control.ParseSourceIndex":     {"-----BEGIN PGP SIGNED MESSAGE-----\nHash: SHA256\n\nSource: x\nVersion: 1\n", "-----BEGIN PGP SIGNED MESSAGE-----\nHash: SHA256\n\nSource: x\n-----BEGIN PGP SIGNATURE-----\n\niQ==\n-----END PGP SIGNATURE-----\n", "-----BEGIN PGP MESSAGE-----\n\nxxxx\n-----END PGP MESSAGE-----\n", "Package: hello\nBinary: hello, hello-doc\nVersion: 2.10-1\nArchitecture: any all\nFiles:\n d41d8cd98f00b204e9800998ecf8427e 10 hello_2.10-1.dsc\n\nPackage: b\nVersion: 1\n", "Package: a\nVersion: 1\n\nPackage: b\nFiles:\n x\n", ""},
 	"deb.Control":                  {"-----BEGIN PGP SIGNED MESSAGE-----\nHash: SHA256\n\nSource: x\nVersion: 1\n", "-----BEGIN PGP SIGNED MESSAGE-----\nHash: SHA256\n\nSource: x\n-----BEGIN PGP SIGNATURE-----\n\niQ==\n-----END PGP SIGNATURE-----\n", "-----BEGIN PGP MESSAGE-----\n\nxxxx\n-----END PGP MESSAGE-----\n", "Package: hello\nVersion: 2.10-1\nArchitecture: amd64\nDepends: a | b\nInstalled-Size: 10\n", "Package: hello\n", "Package: hello\nVersion: 1\nArchitecture: amd64\nInstalled-Size: x\n", ""},
+	"control.Unmarshal(user document)": {"Package: hello\nVersion: 2.10-1\nDepends: a | b\nX-Note: n\n", "Package: hello\n\nPackage: other\nVersion: 1\n", "Version: x\n", ""},
 	"changelog.Parse":              {"hello (1.0-1) unstable; urgency=low\n\n  * x\n\n -- A <a@b>  Mon, 02 Jan 2006 15:04:05 +0100\n\nhello (0.9-1) unstable; urgency=low\n\n  * y\n\n -- A <a@b>  Sun, 01 Jan 2006 15:04:05 +0100\n", "hello (1.0-1) unstable; urgency=low\n\n  * x\n", "hello (a) unstable;\n", ""},
 	"changelog.ParseOne":           {"hello (1.0-1) unstable; urgency=low\n\n  * x\n\n -- A <a@b>  Mon, 02 Jan 2006 15:04:05 +0100\n", " x\n", ""},
 }
